@@ -25,6 +25,7 @@ HDR = ("From Coq Require Import List NArith ZArith Bool.\n"
 XSTREAM_SHARD = 999999   # shard key of the known-finding probe (its font indices are >= 1000000)
 XSTREAM_BASE = 1000000
 LIGLIG_SHARD = 1999999
+LIGLIG_BASE = 2000000
 KNOWN_XSTREAM = "kern_cross_stream_resets_attachments"
 KNOWN_VF2 = "pairpos_second_glyph_by_value_not_format"
 
@@ -239,7 +240,7 @@ def run(chk):
                 mc = re.match(r"chk=(\S+) ", m.group(4))
                 if mc:
                     f["anchor_check"] = mc.group(1)
-                if f["font_index"] >= XSTREAM_BASE and m.group(3) in ("markbase", "marklig", "markmark"):
+                if XSTREAM_BASE <= f["font_index"] < LIGLIG_BASE and m.group(3) in ("markbase", "marklig", "markmark"):
                     f["class"] = KNOWN_XSTREAM
                     f["what"] = "geometry-" + m.group(3) + "-under-cross-stream-kern"
                     xstream_hits.append(f)
